@@ -907,9 +907,10 @@ class RawAlgorithmsMixIn:
             raise NotImplementedError('should implement that')
 
         xbar_data = out
-        cls._mul(2*zbar_data, y_data, y_data)
-        y_data += ybar_data
-        cls._amul(y_data, z_data, xbar_data)
+        # work on a temporary: y_data is the forward value of tan(x) and must stay intact
+        tmp = cls._mul(2*zbar_data, y_data)
+        tmp += ybar_data
+        cls._amul(tmp, z_data, xbar_data)
 
 
     @classmethod
